@@ -103,17 +103,24 @@ func c07Parse(k int, variant int64, dl int, b []byte) []byte {
 			return []byte(strz.Utf16ParseToString(s))
 		}
 	default:
+		// the returned string is read only after the caller has overwritten the byte slice it passed in: the result must not
+		// be a view of the argument (not even when nothing was decoded and the two are equal)
 		src := c07Exact(b)
+		var res string
 		switch k {
 		case 0:
-			return []byte(strz.OctalParseToString(src))
+			res = strz.OctalParseToString(src)
 		case 1:
-			return []byte(strz.HexParseToString(src))
+			res = strz.HexParseToString(src)
 		case 2:
-			return []byte(strz.UnicodeParseToString(src))
+			res = strz.UnicodeParseToString(src)
 		default:
-			return []byte(strz.Utf16ParseToString(src))
+			res = strz.Utf16ParseToString(src)
 		}
+		for i := range src {
+			src[i] = '#'
+		}
+		return []byte(res)
 	}
 }
 
